@@ -88,5 +88,83 @@ def relations(rng, tier, rpt):
         x = hashlib.sha256(x + h).digest()
     if ElectrumV1SeedGenerator(s).Generate() != x:
         rep("Electrum v1 seed differs from 100000x iterated SHA-256 of the hex entropy", s, "?", x.hex())
+    # argument forms: the generators document `str or Mnemonic object`; an invalid sentence yields no seed in either form,
+    # a valid one yields the same seed in every form
+    from bip_utils import (Bip39Mnemonic, ElectrumV2Mnemonic, ElectrumV1Mnemonic, ElectrumV2Languages, ElectrumV1Languages)
+    from bip_utils.utils.mnemonic import Mnemonic
+    nf = 0
+    for i in range(18 if tier == "quick" else 360):
+        lang = BIP39_LANGS[i % 9]
+        words = words_of(lang)
+        ws = spec_encode(words, bytes(rng.randrange(256) for _ in range(rng.choice([16, 20, 32]))))
+        k = i % 6
+        if k == 0:
+            sent, valid = list(ws), True
+        elif k == 1:
+            sent = list(ws); j = rng.randrange(len(sent)); sent[j] = words[(words.index(sent[j]) + 1 + rng.randrange(2046)) % 2048]; valid = None   # checksum almost surely wrong
+        elif k == 2:
+            sent, valid = list(ws[:-1]), False
+        elif k == 3:
+            sent = list(ws); sent[rng.randrange(len(sent))] = "notaword"; valid = False
+        elif k == 4:
+            sent, valid = list(ws) + [ws[0]], False
+        else:
+            other = words_of(BIP39_LANGS[(i + 1) % 9]); sent = list(ws); sent[0] = other[rng.randrange(2048)]; valid = None
+        text = " ".join(sent)
+        forms = [("str", text), ("Bip39Mnemonic.FromString", Bip39Mnemonic.FromString(text)), ("Bip39Mnemonic.FromList", Bip39Mnemonic.FromList(sent)),
+                 ("Mnemonic.FromList", Mnemonic.FromList(sent))]
+        for gname, G in (("Bip39SeedGenerator", Bip39SeedGenerator), ("SubstrateBip39SeedGenerator", SubstrateBip39SeedGenerator)):
+            outs = []
+            for fname, arg in forms:
+                nf += 1
+                try:
+                    outs.append((fname, G(arg, Bip39Languages[lang]).Generate("pw").hex()))
+                except ValueError:
+                    outs.append((fname, "ValueError"))
+                except Exception as ex:  # noqa
+                    outs.append((fname, type(ex).__name__))
+            ref = outs[0][1]
+            if valid is True and ref == "ValueError":
+                rep(gname + " refuses a valid sentence", text, ref, "a seed")
+            if valid is False and ref != "ValueError":
+                rep(gname + " yields a seed for an invalid sentence", text, ref, "ValueError")
+            for fname, o in outs[1:]:
+                if o != ref:
+                    rep("%s: the sentence given as %s behaves differently from the same sentence given as str (an invalid sentence must never yield a seed)" % (gname, fname),
+                        "%s | %s" % (lang, text), o, ref)
+    e = bytes(rng.randrange(256) for _ in range(16))
+    v1 = ElectrumV1MnemonicEncoder().Encode(e).ToList()
+    for sent in (v1, v1[:-1], v1[:-1] + ["notaword"], v1 + v1[:1]):
+        text = " ".join(sent)
+        outs = []
+        for arg in (text, ElectrumV1Mnemonic.FromList(sent), Mnemonic.FromList(sent)):
+            nf += 1
+            try:
+                outs.append(ElectrumV1SeedGenerator(arg).Generate().hex())
+            except ValueError:
+                outs.append("ValueError")
+            except Exception as ex:  # noqa
+                outs.append(type(ex).__name__)
+        if len(set(outs)) != 1 or (sent is not v1 and outs[0] != "ValueError"):
+            rep("ElectrumV1SeedGenerator: argument forms disagree or an invalid sentence yields a seed", text, str(outs), "equal; ValueError when invalid")
+    for i in range(2 if tier == "quick" else 20):
+        e2, s2 = v2_valid_entropy(rng, 132, V2_TYPES[i % 4], V2_LANGS[i % 4])
+        if s2 is None:
+            continue
+        w2 = s2.split(" ")
+        for sent in (w2, w2[:-1], [w2[1], w2[0]] + w2[2:]):
+            text = " ".join(sent)
+            outs = []
+            for arg in (text, ElectrumV2Mnemonic.FromList(sent), Mnemonic.FromList(sent)):
+                nf += 1
+                try:
+                    outs.append(ElectrumV2SeedGenerator(arg, ElectrumV2Languages[V2_LANGS[i % 4]]).Generate("pw").hex())
+                except ValueError:
+                    outs.append("ValueError")
+                except Exception as ex:  # noqa
+                    outs.append(type(ex).__name__)
+            if len(set(outs)) != 1 or (len(sent) != 12 and outs[0] != "ValueError"):
+                rep("ElectrumV2SeedGenerator: argument forms disagree or an invalid sentence yields a seed", text, str(outs), "equal; ValueError when invalid")
+    rpt.extra["argument_form_checks"] = nf
     rpt.extra["impl_relation_checks"] = n
     return bad[:6]
